@@ -4,6 +4,7 @@
 #include <math.h>
 #include <string.h>
 
+#include <algorithm>
 #include <limits>
 #include <new>
 #include <string>
@@ -216,6 +217,16 @@ C03_HOT inline bool binop_defined(int op, T a, D d) {
       if (res == res && res - res == 0 && (res > static_cast<P>(std::numeric_limits<T>::max()) || res < static_cast<P>(std::numeric_limits<T>::lowest()))) return false;
     }
     return true;
+  } else if constexpr (std::is_floating_point_v<D>) {
+    // integer wrapper, float/double operand: carried out in P = float/double, converted back to T; the
+    // conversion is defined only when the truncated result fits T (conservative bounds: not compared otherwise)
+    if (!(op == OP_ADD || op == OP_SUB || op == OP_MUL || op == OP_DIV)) return false;
+    using P = decltype(a + d);
+    P pa = static_cast<P>(a), pd = d, res = op == OP_ADD ? pa + pd : (op == OP_SUB ? pa - pd : (op == OP_MUL ? pa * pd : pa / pd));
+    constexpr int w = sizeof(T) * 8;
+    if (!(res == res)) return false;
+    if constexpr (std::is_signed_v<T>) return res >= -ldexp(static_cast<P>(1), w - 1) && res < ldexp(static_cast<P>(1), w - 1);
+    else return res > static_cast<P>(-1) && res < ldexp(static_cast<P>(1), w);
   } else {
     using P = decltype(a + d);  // type the arithmetic is carried out in
     P pa = static_cast<P>(a), pd = static_cast<P>(d), tmp;
@@ -253,7 +264,7 @@ C03_HOT inline T apply_binop(int op, X& x, D d, bool& ref_ok) {
     case OP_DIV: VF_BIN(/=)
     default: break;
   }
-  if constexpr (std::is_integral_v<T>) {
+  if constexpr (std::is_integral_v<T> && std::is_integral_v<D>) {
     switch (op) {
       case OP_MOD: VF_BIN(%=)
       case OP_AND: VF_BIN(&=)
@@ -397,6 +408,26 @@ std::vector<uint64_t> lane_set(const uint8_t* lanes, size_t nl, int nbytes) {
   for (int b = 0; b < nbytes * 8; b++) v.push_back(~(1ull << b) & mask);
   v.push_back(0x0102030405060708ull & mask);
   v.push_back(~0x0102030405060708ull & mask);
+  return v;
+}
+
+// v plus every 2^k-1, 2^k, 2^k+1 and two's-complement negative (k = 0..bits) that v does not contain yet
+inline std::vector<uint64_t> with_pow2(std::vector<uint64_t> v, int bits) {
+  const uint64_t mask = bits == 64 ? ~0ull : ((1ull << bits) - 1);
+  std::vector<uint64_t> sorted = v;
+  std::sort(sorted.begin(), sorted.end());
+  std::vector<uint64_t> added;
+  for (int k = 0; k <= bits; k++)
+    for (int d = -1; d <= 1; d++) {
+      uint64_t u = ((k < 64 ? (1ull << k) : 0ull) + static_cast<uint64_t>(static_cast<int64_t>(d))) & mask;
+      for (uint64_t x : {u, static_cast<uint64_t>((0ull - u) & mask)}) {
+        if (std::binary_search(sorted.begin(), sorted.end(), x)) continue;
+        bool seen = false;
+        for (uint64_t y : added) seen = seen || y == x;
+        if (!seen) added.push_back(x);
+      }
+    }
+  v.insert(v.end(), added.begin(), added.end());
   return v;
 }
 
